@@ -3,7 +3,10 @@ package main
 import (
 	"encoding/json"
 	"fmt"
+	"math/rand"
 	"os"
+	"regexp"
+	"strings"
 	"sync/atomic"
 	"time"
 
@@ -29,6 +32,7 @@ type closeDesc struct {
 	Close   bool        `json:"close"`
 	Words   []int       `json:"words"`
 	Grants  []int       `json:"grants,omitempty"`
+	Txn     *txnDesc    `json:"txn,omitempty"` // second kind of case: transactional calls around a rejected commit
 }
 
 var closePoints = map[string]bool{
@@ -187,12 +191,89 @@ func execClose(c *corr.Ctx, d closeDesc) (corr.Case, error) {
 	return corr.Case{Coq: coq, Nontrivial: d.Close || d.Toggles > 0, Desc: d}, nil
 }
 
+var txnCtor = regexp.MustCompile(`\b(Cs|Cfg|FP|V|B|Bh|G|S|D|C|X|Xh|Cl|Clh|Ro|Roh|Fw|Du|Vl|Nf)\b`)
+
+// execRejected runs a transactional scenario with the txn family's executor (every call under the
+// watchdog) and turns the term into a TxnCase of Corr/RunClose.v.
+func execRejected(c *corr.Ctx, d txnDesc) corr.Case {
+	cs := execTxn(c, d)
+	cs.Coq = txnCtor.ReplaceAllString(cs.Coq, "T$1")
+	cs.Desc = closeDesc{Txn: &d}
+	cs.Nontrivial = true
+	return cs
+}
+
+// genRejected: a commit that gets its timestamp and is then refused by the write path (too large
+// for one request; commit queue closed), followed by further transactions that must all return.
+func genRejected(r *rand.Rand) txnDesc {
+	var d txnDesc
+	op := func(k string, id, key int, v string) txnOp {
+		return txnOp{Kind: k, ID: id, Update: true, Key: key, Val: v}
+	}
+	follow := func(id int) {
+		d.Ops = append(d.Ops, op("begin", id, 0, ""))
+		if !d.closedNow() {
+			d.Ops = append(d.Ops, op("get", id, r.Intn(2), ""))
+		}
+		d.Ops = append(d.Ops, op("set", id, 1, fmt.Sprintf("w%d", id)))
+		kind := "commit"
+		if r.Intn(3) == 0 {
+			kind = "commitwith"
+		}
+		d.Ops = append(d.Ops, txnOp{Kind: kind, ID: id})
+	}
+	d.Cfg = txnCfg{Detect: r.Intn(2) == 0, MaxCount: 64, MaxSize: 1 << 20, VThr: 1024}
+	if r.Intn(2) == 0 { // a seed commit
+		d.Ops = append(d.Ops, op("begin", 0, 0, ""), op("set", 0, 0, "s0"), op("commit", 0, 0, ""))
+	}
+	if r.Intn(2) == 0 {
+		// too large for one request: passes Txn.checkSize (user keys), fails sendToWriteCh (internal keys)
+		d.Cfg.MaxSize = 90
+		d.Ops = append(d.Ops, op("begin", 0, 0, ""))
+		for i, k := range []int{0, 1, 2} {
+			d.Ops = append(d.Ops, op("set", 0, k, fmt.Sprintf("v%d", i)+strings.Repeat("z", 18)))
+		}
+		d.Ops = append(d.Ops, txnOp{Kind: "commit", ID: 0})
+	} else {
+		// the commit queue is closed between the writes and the commit
+		d.Ops = append(d.Ops, op("begin", 0, 0, ""), op("set", 0, 0, "v0"), txnOp{Kind: "close"}, txnOp{Kind: "commit", ID: 0})
+	}
+	for id, m := 1, 1+r.Intn(3); id <= m; id++ {
+		follow(id)
+	}
+	d.Ops = append(d.Ops, txnOp{Kind: "begin", ID: 5}, txnOp{Kind: "discard", ID: 5})
+	if d.closedNow() {
+		d.Ops = append(d.Ops, txnOp{Kind: "reopen"})
+		follow(6)
+	}
+	for k := range txnKeys {
+		d.Ops = append(d.Ops, txnOp{Kind: "dump", Key: k})
+	}
+	return d
+}
+
+func (d *txnDesc) closedNow() bool {
+	closed := false
+	for _, o := range d.Ops {
+		switch o.Kind {
+		case "close":
+			closed = true
+		case "reopen":
+			closed = false
+		}
+	}
+	return closed
+}
+
 func runClose(c *corr.Ctx) error {
 	c.Meta("run_module", "RunClose")
 	c.Meta("rule", "exhaustive: every interleaving of one writer (1 Set = 2 grants), Close (2 grants) and the throttle (2 toggles) = 90 "+
 		"schedules, each followed by a round-robin drain; random: 2-3 writers x 1-3 Sets (some rejected by the size check), 0-4 throttle "+
 		"toggles, Close in 3 of 4 cases, random block schedules + drain. After every grant the number of returned calls per writer "+
-		"and whether Close returned are compared with the model; at the end the ok/error result of every call. non-trivial = Close or "+
+		"and whether Close returned are compared with the model; at the end the ok/error result of every call. Plus transactional "+
+		"scenarios: a commit that got its timestamp is rejected (too large for one request / commit queue closed), then further "+
+		"NewTransaction + Get + Set + Commit (and a reopen) - every call under a watchdog of 4 s, compared with Model/TxnOracle.v, "+
+		"a call that does not return is the violation. non-trivial = Close or "+
 		"throttle present; distinct by Gallina term")
 	emit := func(d closeDesc) error {
 		cs, err := execClose(c, d)
@@ -213,12 +294,21 @@ func runClose(c *corr.Ctx) error {
 			if err := json.Unmarshal(b, &d); err != nil {
 				return err
 			}
+			if d.Txn != nil {
+				c.Emit(execRejected(c, *d.Txn))
+				continue
+			}
 			d.Words = d.Grants
 			if err := emit(d); err != nil {
 				return err
 			}
 		}
 		return nil
+	}
+	// transactional calls around a rejected commit: every later call must return
+	for i, m := 0, c.Scale(30, 600); i < m && hungCases < 4; i++ {
+		c.Count("rejected_commit_scenarios")
+		c.Emit(execRejected(c, genRejected(c.Rng)))
 	}
 	var ferr error
 	// thread ids in words: 1 throttle, 2 closer, 3 writer
